@@ -365,6 +365,10 @@ fn main() {
         ],
         // cheapest first, so that the wall cap (if it is ever hit) cuts only the last pass
         Tier::Thorough => vec![
+            // room G: the nodes of a losing power-levels fork (and a ban made under it) are prev candidates, so the
+            // inputs include conflicted sets made of power events only and an auth difference that brings back a
+            // power-levels event whose key is unconflicted (measured alone: 1068 histories, 1.17e6 calls, 11 s)
+            (2, 2, 1, vec![3, 6, 4, 13], vec!['G']),
             (3, 2, 1, power_templates.clone(), ab.clone()),
             (3, 2, 1, vec![0, 1, 3, 4, 6, 7, 9, 10], ab.clone()),
             (3, 2, 1, power_templates.clone(), vec!['a', 'b']),
@@ -381,7 +385,7 @@ fn main() {
     };
     report.set_rule(&format!(
         "passes (history depth, max state sets, deviation bound, templates, base rooms) = {passes:?}. inputs: every room history reachable by appending <= depth events \
-         (14 templates x prev subsets x timestamp equal/later) to the pass's base rooms (A with power levels, B without, C = A plus an abandoned merged power-levels fork, all room version 11; D / E = A / B with the create event sent by the moderator while content.creator is the creator, room version 10), and every subset of 2..=max nodes containing \
+         (14 templates x prev subsets x timestamp equal/later) to the pass's base rooms (A with power levels, B without, C = A plus an abandoned merged power-levels fork, G = A plus two concurrent power-levels events and a ban under the losing one with all three usable as prev events, all room version 11; D / E = A / B with the create event sent by the moderator while content.creator is the creator, room version 10), and every subset of 2..=max nodes containing \
          the newest node. For each input: repeat call; every permutation of the state-set list with the auth-chain list permuted jointly, left in \
          place and reversed; 1-3 identical copies of one set must come back unchanged; for two conflicting sets also every arrangement of [S0,S0,S1] and [S1,S1,S0] (one result per collection); every arrangement of the sets plus one empty set; the same call on a fresh thread; deviation-bounded DFS over the iteration order of every hash \
          container resolve iterates (hook verif_order): all-default run, then every combination of <= bound deviations over the choice points \
